@@ -1057,12 +1057,21 @@ func genManualVIPs(g *fullGen) *built {
 		ips = []string{}
 	}
 	name := g.pick(fSvcNames)
+	peer := ""
 	// prefer services that own a virtual IP row
 	_, vips, _ := g.r.store().ServiceVirtualIPs()
 	if len(vips) > 0 && g.rng.Intn(6) > 0 {
-		name = vips[g.rng.Intn(len(vips))].Service.ServiceName.Name
+		v := vips[g.rng.Intn(len(vips))]
+		name = v.Service.ServiceName.Name
+		if g.chance(3) {
+			peer = v.Service.Peer // the row of an imported service (the endpoint itself only names local ones)
+		}
 	}
-	req := state.ServiceVirtualIP{Service: structs.PeeredServiceName{ServiceName: structs.NewServiceName(name, nil)}, ManualIPs: ips}
+	if g.chance(10) && len(ips) > 0 {
+		// beyond what the endpoint emits (it de-duplicates): a repeated address, as an older leader could send
+		ips = append(ips, ips[g.rng.Intn(len(ips))])
+	}
+	req := state.ServiceVirtualIP{Service: structs.PeeredServiceName{ServiceName: structs.NewServiceName(name, nil), Peer: peer}, ManualIPs: ips}
 	return &built{kind: "manual-vips", typ: structs.UpdateVirtualIPRequestType, msg: req}
 }
 
